@@ -481,13 +481,13 @@ example : ∀ f ∈ [Extra.SubField.txPub (List.replicate 32 7), .nonce [1, 2], 
     .addKeys [List.replicate 32 1], .minerGate []], Json.wfSubField f := by
   simp [Json.wfSubField, Json.U64]
 example : subFieldJ (.mergeMining 7 [1, 2]) = .obj [("MergeMining", .arr [.num 7, .arr [.num 1, .num 2]])] := rfl
-example : InRange false (2 ^ 64 - 1) ∧ ¬ Small (2 ^ 64 - 1) := by
+example : InRange false (2 ^ 64 - 1) ∧ ¬ Json.Small (2 ^ 64 - 1) := by
   refine ⟨by simp [InRange], ?_⟩
   unfold Json.Small; omega
-example : InRange true (-(2 ^ 63)) ∧ ¬ Small (-(2 ^ 63)) := by
+example : InRange true (-(2 ^ 63)) ∧ ¬ Json.Small (-(2 ^ 63)) := by
   refine ⟨by simp [InRange], ?_⟩
   unfold Json.Small; omega
-example : InRange true (-(2 ^ 63 - 1)) ∧ Small (-(2 ^ 63 - 1)) := by
+example : InRange true (-(2 ^ 63 - 1)) ∧ Json.Small (-(2 ^ 63 - 1)) := by
   refine ⟨by simp [InRange], ?_⟩
   unfold Json.Small; omega
 
